@@ -31,6 +31,9 @@ Bodies == <<
   Body(<<"eqslot">>, AnyS, AnyS, <<>>, [principal |-> Ub], TRUE),
   Body(AnyS, AnyS, AnyS, <<<<"unless", T_>>>>, <<>>, FALSE),
   Body(AnyS, <<"eq", Av>>, <<"isin", "Doc", Gg>>, <<>>, <<>>, FALSE),
+  \* the empty action list matches no request; its clauses are never reached
+  Body(AnyS, <<"inset", <<>>>>, AnyS, <<>>, <<>>, FALSE),
+  Body(AnyS, <<"inset", <<>>>>, AnyS, <<<<"when", Bin("eq", TypeErrE, Lit(L(2)))>>>>, <<>>, FALSE),
   \* ---- erroring
   Body(AnyS, AnyS, AnyS, <<<<"when", Bin("eq", TypeErrE, Lit(L(2)))>>>>, <<>>, FALSE),
   Body(AnyS, AnyS, AnyS, <<<<"when", Bin("eq", OverflowE, Lit(L(0)))>>>>, <<>>, FALSE),
@@ -39,7 +42,7 @@ Bodies == <<
   Body(AnyS, AnyS, AnyS, <<<<"unless", Bin("eq", ExtErrE, ExtErrE)>>>>, <<>>, FALSE),
   Body(AnyS, AnyS, AnyS, <<<<"when", T_>>, <<"when", Lit(L(1))>>>>, <<>>, FALSE)
 >>
-Expected == <<"sat", "sat", "sat", "sat", "sat", "unsat", "unsat", "unsat", "unsat", "unsat",
+Expected == <<"sat", "sat", "sat", "sat", "sat", "unsat", "unsat", "unsat", "unsat", "unsat", "unsat", "unsat",
               "err", "err", "err", "err", "err", "err">>
 
 NB == Len(Bodies)
